@@ -461,17 +461,20 @@ def run(ctx):
                 )
                 continue
             ok = bool(roots) and roots <= allowed
-            ctx.ob(
-                "C17.write",
-                f,
-                call,
-                ok,
-                ""
-                if ok
-                else "written path depends on {} — only {} name the output file".format(
+            msg = ""
+            if not ok:
+                msg = "written path depends on {} — only {} name the output file".format(
                     sorted(roots), sorted(allowed)
-                ),
-            )
+                )
+            else:
+                ex = exact_param(index, f, p)
+                if ex is None or ex not in allowed:
+                    ok = False
+                    msg = (
+                        "the file written is `{}`, not exactly the named output ({}): a second file is "
+                        "created/modified".format(short(p, 60), sorted(allowed))
+                    )
+            ctx.ob("C17.write", f, call, ok, msg)
     ctx.count("command_write_sites", n_w)
     ctx.floor("command write sites", n_w, 8)
     # input files are opened read-only: every open() whose path depends on an input parameter
@@ -493,6 +496,51 @@ def run(ctx):
                             sorted(bad), short(open_mode_arg(e.call), 20)
                         ),
                     )
+
+
+NORMALISERS = frozenset(
+    (
+        "os.path.realpath os.path.expanduser os.path.abspath os.path.normpath os.path.normcase "
+        "os.fspath builtins.str cdd.shared.pure_utils.filename_from_mod_or_filename"
+    ).split()
+)
+
+
+def exact_param(index, f, e, depth=0):
+    """
+    the parameter of f that `e` denotes *exactly* (modulo path normalisers and re-binding
+    `p = normalise(p)`), or None when e is any other function of its inputs
+    """
+    from ..defuse import local_defs
+
+    if depth > 6:
+        return None
+    if isinstance(e, ast.Name):
+        defs = local_defs(f).get(e.id, [])
+        if not defs:
+            return e.id if e.id in f.params else None
+        got = set()
+        for d in defs:
+            if isinstance(d, ast.Name) and d.id == e.id:
+                continue
+            # p = normalise(p): look through, but do not loop on ourselves
+            r = exact_param_nodef(index, f, d, e.id, depth + 1)
+            got.add(r)
+        if e.id in f.params:
+            got.add(e.id)
+        return got.pop() if len(got) == 1 and None not in got else None
+    if isinstance(e, ast.Call) and index.callee(f.mod, e, f) in NORMALISERS and len(e.args) == 1:
+        return exact_param(index, f, e.args[0], depth + 1)
+    return None
+
+
+def exact_param_nodef(index, f, e, self_name, depth):
+    """like exact_param, but a reference to `self_name` stands for the parameter itself"""
+    if isinstance(e, ast.Name) and e.id == self_name:
+        return self_name if self_name in f.params else None
+    if isinstance(e, ast.Call) and index.callee(f.mod, e, f) in NORMALISERS and len(e.args) == 1:
+        return exact_param_nodef(index, f, e.args[0], self_name, depth + 1)
+    return exact_param(index, f, e, depth)
 
 
 def _path_arg(index, wm, f, call, what):
